@@ -577,3 +577,68 @@ Proof.
   - exists l1, [], []. split; [exact L1|]. split; [exact L2|]. intro C. exfalso.
     change h3SettingsMaxLen with 8192 in C. change (2 ^ 62) with 4611686018427387904 in B. lia.
 Qed.
+
+(* ---------- the converse: whatever ParseNext returns, it read exactly this ---------- *)
+Lemma vi_read_inv b v r : vi_read b = Some (v, r) -> exists e, is_enc e v /\ b = e ++ r.
+Proof.
+  rewrite vi_read_parse. destruct (vi_parse b) as [v' n| |] eqn:P; try discriminate.
+  intro E. inversion E; subst. destruct (vi_parse_inv b v n P) as (L & B & _ & F).
+  exists (vi_form n v). split; [exists n; auto|]. rewrite <- F. symmetry. apply firstn_skipn.
+Qed.
+
+Definition skippable (t : N) : Prop :=
+  t <> h3FrameData /\ t <> h3FrameHeaders /\ t <> h3FrameSettings /\ ~ In t h3ReservedTypes.
+
+(* a run of complete frames of types the parser passes over *)
+Inductive skipped_frames : bytes -> Prop :=
+| sk_nil : skipped_frames []
+| sk_cons et el t p r : is_enc et t -> is_enc el (lenN p) -> skippable t -> skipped_frames r ->
+    skipped_frames (et ++ el ++ p ++ r).
+
+Lemma memN_In t l : memN t l = true <-> In t l.
+Proof.
+  induction l as [|x l IH]; cbn; [split; [discriminate|tauto]|].
+  rewrite Bool.orb_true_iff, IH, N.eqb_eq. split; intros [A|A]; auto.
+Qed.
+
+Theorem h3_parse_next_ok_inv : forall input f rest, h3_parse_next input = (H3Ok f, rest) ->
+  exists sk et el t l body, skipped_frames sk /\ is_enc et t /\ is_enc el l /\ input = sk ++ et ++ el ++ body /\
+    ((t = h3FrameData /\ f = H3Data l /\ rest = body) \/
+     (t = h3FrameHeaders /\ f = H3Headers l /\ rest = body) \/
+     (t = h3FrameSettings /\ l <= h3SettingsMaxLen /\
+      exists payload s, body = payload ++ rest /\ lenN payload = l /\
+                        h3_parse_settings_payload payload = H3Ok s /\ f = H3Settings s)).
+Proof.
+  intro input. remember (length input) as n eqn:Hn. revert input Hn.
+  induction n as [n IH] using lt_wf_ind. intros input Hn f rest H.
+  rewrite parse_next_unfold in H.
+  destruct (vi_read input) as [[t r1]|] eqn:R1; [|discriminate].
+  destruct (vi_read r1) as [[l r2]|] eqn:R2; [|discriminate].
+  destruct (vi_read_inv _ _ _ R1) as (et & Et & E1). destruct (vi_read_inv _ _ _ R2) as (el & El & E2).
+  pose proof (is_enc_nonempty _ _ Et) as NEt.
+  destruct (N.eqb_spec t h3FrameData) as [T0|T0].
+  { inversion H; subst. exists [], et, el, h3FrameData, l, rest. repeat split; try assumption; [constructor|]. left. auto. }
+  destruct (N.eqb_spec t h3FrameHeaders) as [T1|T1].
+  { inversion H; subst. exists [], et, el, h3FrameHeaders, l, rest. repeat split; try assumption; [constructor|]. right. left. auto. }
+  destruct (N.eqb_spec t h3FrameSettings) as [T4|T4].
+  { unfold h3_parse_settings_frame in H.
+    destruct (N.ltb_spec h3SettingsMaxLen l); [discriminate|].
+    destruct (N.ltb_spec (lenN r2) l); [discriminate|].
+    destruct (h3_parse_settings_payload (firstn (N.to_nat l) r2)) as [s|] eqn:PS; [|discriminate].
+    inversion H; subst. exists [], et, el, h3FrameSettings, l, r2. repeat split; try assumption; [constructor|].
+    right. right. repeat split; [assumption|]. exists (firstn (N.to_nat l) r2), s.
+    repeat split; [symmetry; apply firstn_skipn| |exact PS].
+    unfold lenN in *. rewrite firstn_length. lia. }
+  destruct (memN t h3ReservedTypes) eqn:M; [discriminate|].
+  destruct (N.ltb_spec (lenN r2) l); [discriminate|].
+  assert (SK : skippable t).
+  { repeat split; try assumption. intro I. apply memN_In in I. congruence. }
+  set (p := firstn (N.to_nat l) r2). set (r3 := skipn (N.to_nat l) r2).
+  assert (Lp : lenN p = l) by (unfold p, lenN in *; rewrite firstn_length; lia).
+  assert (E3 : r2 = p ++ r3) by (symmetry; apply firstn_skipn).
+  destruct (IH (length r3)) with (input := r3) (f := f) (rest := rest) as (sk & et' & el' & t' & l' & body & SKs & Et' & El' & E' & Cases); [|reflexivity|exact H|].
+  { subst n. rewrite E1, E2, E3. rewrite !app_length. lia. }
+  exists (et ++ el ++ p ++ sk), et', el', t', l', body. repeat split; try assumption.
+  - apply (sk_cons et el t p sk); try assumption. rewrite Lp. exact El.
+  - rewrite E1, E2, E3, E'. rewrite <- !app_assoc. reflexivity.
+Qed.
